@@ -27,8 +27,9 @@ type vstruct struct {
 
 // the two custom validations of rpc/v10/validator.go, used the way rpc/v10/transaction_types.go does
 type bounds struct {
-	MaxAmount *felt.Felt `json:"max_amount" validate:"required,felt_max_bits=64"`
-	Version   *felt.Felt `json:"version" validate:"required,version_0x3"`
+	MaxAmount       *felt.Felt `json:"max_amount" validate:"required,felt_max_bits=64"`
+	MaxPricePerUnit *felt.Felt `json:"max_price_per_unit" validate:"required,felt_max_bits=128"`
+	Version         *felt.Felt `json:"version" validate:"required,version_0x3"`
 }
 
 var (
@@ -297,6 +298,17 @@ func randomWorld(r *lib.RNG) WorldSpec {
 			m.Params = append(m.Params, ParamSpec{Name: pn[k], Optional: opt, Ty: lib.Pick(r, ptypes)})
 		}
 		spec.Methods = append(spec.Methods, m)
+	}
+	if r.Chance(1, 5) { // a name registered twice: the later registration replaces the earlier one
+		dup := spec.Methods[r.Intn(len(spec.Methods))]
+		dup.Beh = lib.Pick(r, []string{"echo", "fail", "both"})
+		dup.Ctx = !dup.Ctx
+		if len(dup.Params) > 0 && r.Bool() {
+			dup.Params = dup.Params[:len(dup.Params)-1]
+		} else {
+			dup.Params = append(append([]ParamSpec(nil), dup.Params...), ParamSpec{Name: "dupextra", Optional: r.Bool(), Ty: lib.Pick(r, ptypes)})
+		}
+		spec.Methods = append(spec.Methods, dup)
 	}
 	return spec
 }
